@@ -451,7 +451,7 @@ func (t *Tokenizer) Tokenize(input []byte) ([]models.TokenWithSpan, error) {
 		}()
 
 		for t.pos.Index < len(t.input) {
-			t.skipWhitespace()
+			t.skipWhitespaceAndComments()
 
 			if t.pos.Index >= len(t.input) {
 				break
@@ -591,7 +591,7 @@ func (t *Tokenizer) TokenizeContext(ctx context.Context, input []byte) ([]models
 				}
 			}
 
-			t.skipWhitespace()
+			t.skipWhitespaceAndComments()
 
 			if t.pos.Index >= len(t.input) {
 				break
@@ -678,6 +678,92 @@ func (t *Tokenizer) skipWhitespace() {
 		}
 		break
 	}
+}
+
+// skipWhitespaceAndComments advances past whitespace and comments in front of
+// the next token. Each comment is captured into t.Comments. Doing this in the
+// tokenize loop (rather than from readPunctuation) means the start position of
+// the following token is taken after the comment, a trailing comment does not
+// produce a token of its own, and runs of comments need no recursion.
+func (t *Tokenizer) skipWhitespaceAndComments() {
+	for {
+		t.skipWhitespace()
+		if t.pos.Index+1 >= len(t.input) {
+			return
+		}
+		c0, c1 := t.input[t.pos.Index], t.input[t.pos.Index+1]
+		switch {
+		case c0 == '-' && c1 == '-':
+			t.readLineComment()
+		case c0 == '/' && c1 == '*':
+			t.readBlockComment()
+		default:
+			return
+		}
+	}
+}
+
+// readLineComment consumes a "--" comment up to and including the end of the
+// line and records it. The cursor must be on the first '-'.
+func (t *Tokenizer) readLineComment() {
+	commentStartIdx := t.pos.Index
+	commentStartPos := t.toSQLPosition(t.pos)
+	t.pos.AdvanceRune('-', 1)
+	t.pos.AdvanceRune('-', 1)
+	// Skip until end of line or EOF
+	for t.pos.Index < len(t.input) {
+		cr, csize := utf8.DecodeRune(t.input[t.pos.Index:])
+		if cr == '\n' {
+			t.pos.AdvanceRune(cr, csize) // Skip the newline too
+			break
+		}
+		t.pos.AdvanceRune(cr, csize)
+	}
+	commentEndIdx := t.pos.Index
+	// Trim trailing newline from comment text
+	textEnd := commentEndIdx
+	if textEnd > 0 && t.input[textEnd-1] == '\n' {
+		textEnd--
+	}
+	t.Comments = append(t.Comments, models.Comment{
+		Text:   string(t.input[commentStartIdx:textEnd]),
+		Style:  models.LineComment,
+		Start:  commentStartPos,
+		End:    t.toSQLPosition(t.pos),
+		Inline: t.hasCodeBeforeOnLine(commentStartIdx),
+	})
+}
+
+// readBlockComment consumes a "/* ... */" comment and records it. The cursor
+// must be on the '/'.
+func (t *Tokenizer) readBlockComment() {
+	commentStartIdx := t.pos.Index
+	commentStartPos := t.toSQLPosition(t.pos)
+	t.pos.AdvanceRune('/', 1)
+	t.pos.AdvanceRune('*', 1)
+	// Skip until */ or EOF
+	for t.pos.Index < len(t.input) {
+		cr, csize := utf8.DecodeRune(t.input[t.pos.Index:])
+		if cr == '*' {
+			t.pos.AdvanceRune(cr, csize)
+			if t.pos.Index < len(t.input) {
+				nr, ns := utf8.DecodeRune(t.input[t.pos.Index:])
+				if nr == '/' {
+					t.pos.AdvanceRune(nr, ns) // End of block comment
+					break
+				}
+			}
+		} else {
+			t.pos.AdvanceRune(cr, csize)
+		}
+	}
+	t.Comments = append(t.Comments, models.Comment{
+		Text:   string(t.input[commentStartIdx:t.pos.Index]),
+		Style:  models.BlockComment,
+		Start:  commentStartPos,
+		End:    t.toSQLPosition(t.pos),
+		Inline: t.hasCodeBeforeOnLine(commentStartIdx),
+	})
 }
 
 // nextToken picks out the next token from the input
@@ -1271,37 +1357,6 @@ func (t *Tokenizer) readPunctuation() (models.Token, error) {
 				}
 				return models.Token{Type: models.TokenTypeArrow, Value: "->"}, nil
 			}
-			// Check for line comment: --
-			if nxtR == '-' {
-				commentStartIdx := t.pos.Index - size // back to first '-'
-				commentStartPos := t.toSQLPosition(Position{Index: commentStartIdx})
-				t.pos.AdvanceRune(nxtR, nxtSize)
-				// Skip until end of line or EOF
-				for t.pos.Index < len(t.input) {
-					cr, csize := utf8.DecodeRune(t.input[t.pos.Index:])
-					if cr == '\n' {
-						t.pos.AdvanceRune(cr, csize) // Skip the newline too
-						break
-					}
-					t.pos.AdvanceRune(cr, csize)
-				}
-				commentEndIdx := t.pos.Index
-				// Trim trailing newline from comment text
-				textEnd := commentEndIdx
-				if textEnd > 0 && t.input[textEnd-1] == '\n' {
-					textEnd--
-				}
-				t.Comments = append(t.Comments, models.Comment{
-					Text:   string(t.input[commentStartIdx:textEnd]),
-					Style:  models.LineComment,
-					Start:  commentStartPos,
-					End:    t.toSQLPosition(t.pos),
-					Inline: t.hasCodeBeforeOnLine(commentStartIdx),
-				})
-				// Return the next token (skip the comment)
-				t.skipWhitespace()
-				return t.nextToken()
-			}
 		}
 		return models.Token{Type: models.TokenTypeMinus, Value: "-"}, nil
 	case '*':
@@ -1309,41 +1364,6 @@ func (t *Tokenizer) readPunctuation() (models.Token, error) {
 		return models.Token{Type: models.TokenTypeMul, Value: "*"}, nil
 	case '/':
 		t.pos.AdvanceRune(r, size)
-		if t.pos.Index < len(t.input) {
-			nxtR, nxtSize := utf8.DecodeRune(t.input[t.pos.Index:])
-			// Check for block comment: /*
-			if nxtR == '*' {
-				commentStartIdx := t.pos.Index - size // back to '/'
-				commentStartPos := t.toSQLPosition(Position{Index: commentStartIdx})
-				t.pos.AdvanceRune(nxtR, nxtSize)
-				// Skip until */ or EOF
-				for t.pos.Index < len(t.input) {
-					cr, csize := utf8.DecodeRune(t.input[t.pos.Index:])
-					if cr == '*' {
-						t.pos.AdvanceRune(cr, csize)
-						if t.pos.Index < len(t.input) {
-							nr, ns := utf8.DecodeRune(t.input[t.pos.Index:])
-							if nr == '/' {
-								t.pos.AdvanceRune(nr, ns) // End of block comment
-								break
-							}
-						}
-					} else {
-						t.pos.AdvanceRune(cr, csize)
-					}
-				}
-				t.Comments = append(t.Comments, models.Comment{
-					Text:   string(t.input[commentStartIdx:t.pos.Index]),
-					Style:  models.BlockComment,
-					Start:  commentStartPos,
-					End:    t.toSQLPosition(t.pos),
-					Inline: t.hasCodeBeforeOnLine(commentStartIdx),
-				})
-				// Return the next token (skip the comment)
-				t.skipWhitespace()
-				return t.nextToken()
-			}
-		}
 		return models.Token{Type: models.TokenTypeDiv, Value: "/"}, nil
 	case '=':
 		t.pos.AdvanceRune(r, size)
